@@ -275,6 +275,23 @@ def rule_absent(E, R):
             t = tail(hh["body"])
             root, ch = chain(t)
             ok = is_param(root, hh, 1) and [x["m"] for x in ch] == ["iter", "try_fold"] and local_name(ch[1]["args"][0]) == "self"
+            if not ok:
+                # the same as an explicit loop: `let mut v = self; for idx in indexes { v = v.get(idx)..?; } Some(v)`
+                Sn = sem.Sem(E, hh, inline=False)
+                loops = sem.for_loops(Sn)
+                if len(loops) == 1:
+                    ls, pat, it = loops[0]
+                    whole = sem.param_index(Sn, it, ls.frame) == 1 and \
+                        chain_verdict([{"m": m_} for m_ in sem.provenance(Sn, it, ls.frame)[3]], terminal_ok=()) == "ok"
+                    asg = [a_ for a_ in exprs(ls.node, "Assign")]
+                    acc = Sn.lookup(sem.peel(asg[0]["l"]), ls.frame) if len(asg) == 1 else None
+                    from_self = acc is not None and acc.expr is not None and local_name(acc.expr) == "self"
+                    step = len(asg) == 1 and sem.is_try(strip(asg[0]["r"])) and \
+                        any(c_["m"] in ("get", "extract") and Sn.lookup(sem.peel(c_["recv"]), ls.frame) is acc for c_ in exprs(asg[0]["r"], "MethodCall"))
+                    no_exit = not [b_ for b_ in exprs(ls.node, ("Break", "Continue")) if not b_.get("x")]
+                    ret = [x for x in Sn.result_leaves() if norm(x.node.get("callee", "")) == "core::option::Option::Some" and
+                           Sn.lookup(sem.peel(x.node["args"][0]), x.frame) is acc]
+                    ok = whole and from_self and step and no_exit and len(ret) == 1
             R.check(ok, rule, fn3, "nested access applies every index in order, stopping at the first missing value", where=hh["span"])
     # maps iterate in ascending key order: BTreeMap
     a = E.adt("lhs_types::map::InnerMap")
